@@ -11,6 +11,7 @@ lockeng.rs) and on the extracted model Misc/Lock.v instantiated with the variant
 import os, re
 from . import common as C
 
+PARAM_SECTIONS = ["lock"]
 MODEL_TARGETS = ["theories/Misc/LockInst.vo"]
 TRUSTED = [
     "flock(2) semantics are assumed, not verified: one exclusive advisory lock per open file description, released when its "
